@@ -159,6 +159,7 @@ class ModuleInfo:
     functions: dict[str, FuncInfo] = field(default_factory=dict)
     classes: dict[str, ClassInfo] = field(default_factory=dict)
     assigns: dict[str, ast.expr] = field(default_factory=dict)
+    pm: object = None
 
     def __repr__(self) -> str:
         return f"<Module {self.name}>"
@@ -257,6 +258,7 @@ class PM:
                 except (SyntaxError, OSError, UnicodeDecodeError) as e:
                     raise AnalysisError(f"cannot parse {rel}: {e}")
                 self.modules[name] = ModuleInfo(name, path, rel, tree, src, is_pkg)
+                self.modules[name].pm = self
         if len(self.modules) < 40:
             raise AnalysisError(
                 f"only {len(self.modules)} modules found under {self.root}; expected >= 40"
